@@ -1020,7 +1020,6 @@ func ruleStreamMasterFields(w *core.World, r *core.Report) {
 	}
 }
 
-
 // isTTLValue recognises the computed time-to-live by what it is made of: a
 // merge of the constant 1 (expiry already past) and "expiry - now".
 func isTTLValue(ph *ssa.Phi) bool {
